@@ -82,7 +82,7 @@ def compositions():
         has = lambda s: any(s in m for m in data_mix)  # noqa: E731
         if not has("Mbi_MixinIvt"):
             c["kind"] = "dsc"  # BCA based images of the DSC families: outside the asserted domain (see assumptions)
-            c["id"] = f"dsc[{acronym(mix)}]"
+            c["id"] = f"dsc:{acronym(mix)}"
             res.append(c)
             continue
         cb = 1 if has("CertBlockV1") else 21 if has("CertBlockV21") else 0
@@ -93,7 +93,7 @@ def compositions():
             kind = {4: "v1_xip", 1: "v1_ram", 3: "v1_enc"}[typ]
         else:
             kind = "v21_dig" if man == 1 else "v21_crc"
-        c.update(kind=kind, cb=cb, man=man, hmac=has("Mbi_MixinHmac"), id=f"{kind}.t{typ}[{acronym(mix)}]")
+        c.update(kind=kind, cb=cb, man=man, hmac=has("Mbi_MixinHmac"), id=f"{kind}.t{typ}:{acronym(mix)}")
         c["tz_kind"] = "mandatory" if (has("TrustZoneMandatory") or has("Manifest")) else "optional" if "Mbi_MixinTrustZone" in data_mix else "none"
         c["opts"] = {"load": has("LoadAddress"), "hwkey": has("HwKey"), "ver": has("ImageVersion"), "sub": has("ImageSubType"),
                      "fw": has("FwVersion") or has("Manifest"), "reloc": has("RelocTable"), "ks": has("KeyStore"), "iv": has("CtrInitVector")}
@@ -175,6 +175,7 @@ def make_cases(comps, tier, r):
         c = {"comp": comp["id"], "kind": comp["kind"], "family": mem["family"], "target": mem["target"], "auth": mem["auth"]}
         c.update(common_opts(comp, mem, r, tier))
         c.update(kw)
+        c["route"] = "cli" if r.random() < 0.15 else "api"
         c["id"] = f"c{len(cases)}"
         cases.append(c)
 
@@ -190,15 +191,16 @@ def make_cases(comps, tier, r):
         reps = [v[0] for v in by_tz.values()]
         pick = lambda: r.choice(reps) if r.random() < 0.7 else r.choice(mems)  # noqa: E731
         if comp["cb"] == 0:
-            for _ in range(6 if quick else 40):
+            for _ in range(10 if quick else 40):
                 add(comp, pick())
-            for ln in (LENS if not quick else [64, 65]):
-                add(comp, pick(), len=ln)
+            for ln in (LENS if not quick else [64, 65, 4100]):
+                for mem in ([pick()] if quick else mems):
+                    add(comp, mem, len=ln)
         elif comp["cb"] == 1:
             sets = [(n, u) for n in range(1, 5) for u in range(n)]
             for bits in K.RSA_BITS:
                 for depth in range(1, 5):
-                    for (n, u) in ([r.choice(sets)] if quick else sets):
+                    for (n, u) in (r.sample(sets, 2) if quick else sets + r.sample(sets, 4)):
                         add(comp, pick(), v1={"bits": bits, "nroots": n, "used": u, "depth": depth})
             add(comp, pick(), v1={"bits": "mix", "nroots": 1, "used": 0, "depth": 2})
             if comp["kind"] == "v1_enc" or comp["opts"]["reloc"]:
@@ -216,9 +218,9 @@ def make_cases(comps, tier, r):
             sets = [(n, u) for n in range(1, 5) for u in range(n)]
             combos = [("p256", None), ("p256", "p256"), ("p384", None), ("p384", "p256"), ("p384", "p384")]
             for curve, isk in combos:
-                for (n, u) in (r.sample(sets, 3) if quick else sets):
+                for (n, u) in (r.sample(sets, 4) if quick else sets):
                     mem = pick()
-                    uds = [0] if isk is None else ([r.choice([0, 4, 32, mem["ud_limit"]])] if quick else [0, 4, mem["ud_limit"]])
+                    uds = [0] if isk is None else ([r.choice([0, 4, 32, mem["ud_limit"]])] if quick else [0, 4, 32, mem["ud_limit"]])
                     for ud in uds:
                         add(comp, mem, v21={"curve": curve, "roots": [f"r{i}" for i in range(n)], "used": u, "isk": isk and f"{isk}_isk",
                                             "ud": ud, "cons": r.getrandbits(31)},
@@ -313,7 +315,11 @@ def build(case, comp, d):
     if comp["cb"] == 1:
         v = case["v1"]
         c, key = v1_material(v["bits"], v["nroots"], v["used"], v["depth"])
-        cfg.update(c)
+        if case.get("route") == "cli" or case["seed"] % 2:  # certificate block described in its own file / inline
+            yaml.safe_dump(c, open(f("cert_block.yaml"), "w"))
+            cfg["certBlock"] = f("cert_block.yaml")
+        else:
+            cfg.update(c)
         cfg["signPrivateKey"] = key
     elif comp["cb"] == 21:
         v = case["v21"]
@@ -338,12 +344,30 @@ def build(case, comp, d):
         elif case.get("digest") == "explicit":
             signer_curve = (v["isk"] or v["curve"])[:4]
             cfg["manifestDigestHashAlgorithm"] = "sha256" if signer_curve == "p256" else "sha384"
-    cls = get_mbi_class(cfg)
-    mbi = cls()
-    mbi.load_from_config(cfg, search_paths=[d])
-    data = mbi.export()
+    if case.get("route") == "cli":
+        # the nxpimage route: schema validation, export, output file, RKTH as printed for the user
+        import contextlib
+        import io
+
+        from spsdk.apps import nxpimage
+
+        yaml.safe_dump(cfg, open(f("mbi.yaml"), "w"))
+        buf = io.StringIO()
+        with contextlib.redirect_stdout(buf):
+            nxpimage.mbi_export(f("mbi.yaml"))
+        data = open(f("mbi.bin"), "rb").read()
+        fuse = None
+        for line in buf.getvalue().splitlines():
+            if line.startswith("RKTH:"):
+                fuse = bytes.fromhex(line.split(":", 1)[1].strip())
+    else:
+        cls = get_mbi_class(cfg)
+        mbi = cls()
+        mbi.load_from_config(cfg, search_paths=[d])
+        data = mbi.export()
+        fuse = mbi.rkth
     rom = {"type": comp["type"], "cb": comp["cb"], "hmac": bool(comp["hmac"]), "tz": mem["tz"], "man": comp["man"]}
-    sec = {"userKey": uk, "fuse": mbi.rkth if comp["cb"] else None, "plain": None}
+    sec = {"userKey": uk, "fuse": fuse if comp["cb"] else None, "plain": None}
     if comp["type"] == 3:
         appa = app + bytes(-len(app) % 4)
         sec["plain"] = R.mask_rom_words(appa + (reloc_bytes(rel, len(appa)) if rel else b"")) + tz_data
@@ -369,6 +393,8 @@ def feature_class(case):
         f.append("reloc")
     if case.get("ks"):
         f.append("ks")
+    if case["len"] <= 64:
+        f.append("len64")  # the payload ends where the HMAC goes
     return "+".join(f) or "base"
 
 
@@ -411,11 +437,48 @@ def run_case(job):
 
 
 # ------------------------------------------------------------------ run
-def mc_and_plan(v, tier):
-    g = tlc.mc("C02", "MbiRomMC", "MbiRomMC.cfg", env={"MC_FULL": "0" if tier == "quick" else "1"}, workers=4 if tier == "quick" else 16, heap="8g",
+def mc_start(tier):
+    """The MC / GEN run in a forked child, concurrently with the construction of the images (no threads: the workers are forked too)."""
+    import multiprocessing as mp
+
+    ctx = mp.get_context("fork")
+    rx, tx = ctx.Pipe(duplex=False)
+
+    def child():
+        tlc._counter[0] += 100000  # private TLC metadir names
+        try:
+            tx.send(("ok", mc_run(tier)))
+        except Machinery as x:
+            tx.send(("err", str(x)))
+        except Exception as x:  # noqa: BLE001
+            tx.send(("err", f"{type(x).__name__}: {x}"))
+
+    p = ctx.Process(target=child)
+    p.start()
+    tx.close()
+    return p, rx
+
+
+def mc_finish(v, handle):
+    p, rx = handle
+    try:
+        kind, g = rx.recv()
+    except EOFError:
+        kind, g = "err", "the model-checking child died"
+    p.join()
+    if kind != "ok":
+        raise Machinery(f"model checking of MbiRomMC failed: {g}")
+    return mc_plan(v, g)
+
+
+def mc_run(tier):
+    return tlc.mc("C02", "MbiRomMC", "MbiRomMC.cfg", env={"MC_FULL": "0" if tier == "quick" else "1"}, workers=4 if tier == "quick" else 16, heap="8g",
                timeout=900, deadlock=True,
                require_actions=("ReadIvt", "CheckCrc", "CheckHmac", "CertBlockV1", "CertV1", "RkhTable", "VerifySigV1", "Decrypt", "CertBlockV21",
                                 "RootKeyRecord", "IskCert", "CertBlockEnd", "Manifest", "ManifestCrc", "VerifySigV21", "CheckDigest", "Accept", "Emit"))
+
+
+def mc_plan(v, g):
     v.add_mc(g)
     plan = {}
     for j in g.json_prints():
@@ -488,7 +551,7 @@ def decide(v, cases_by_id, comps_by_id, results, plan, tier):
         v.violation(key, f"{case['family']} {case['target']}/{case['auth']}: the ROM automaton rejects the exported image at step #{matched + 1} "
                     f"{json.dumps(e)[:300]}", {"case": case, "trace": t, "failed_event": matched + 1})
     # tamper verdicts as TLC predicted them in the GEN run
-    tam_stats = {}
+    tam_stats, mismatch = {}, []
     for t in tampers:
         case = cases_by_id[t["id"].split("#")[0]]
         if case["id"] in rej:
@@ -500,13 +563,15 @@ def decide(v, cases_by_id, comps_by_id, results, plan, tier):
         st = tam_stats.setdefault(f"{case['kind']}/{t['cls']}", {"Rejected": 0, "Accepted": 0, "expected": exp})
         st[got] += 1
         if got != exp:
-            raise Machinery(f"tamper run {t['id']} ({case['kind']}/{t['cls']}, {case['comp']}): automaton says {got}, the model predicted {exp}: "
+            mismatch.append(f"tamper run {t['id']} ({case['kind']}/{t['cls']}, {case['comp']}): automaton says {got}, the model predicted {exp}: "
                             f"{json.dumps(t['ev'][-2:])[:300]}")
-    return n_acc, tam_stats, by_id
+    return n_acc, tam_stats, mismatch
 
 
 def run(tier):
     import_spsdk()
+    from spsdk.apps import nxpimage  # noqa: F401 - imported before the workers are forked
+
     missing = K.verify_pool()
     if missing:
         raise Machinery(f"key pool incomplete ({K.POOL}): {missing[:5]} - run harness/lib/mbi_keys.py")
@@ -527,9 +592,8 @@ def run(tier):
             seen.add(k)
             tam[c["id"]] = "classes"
 
-    plan = mc_and_plan(v, tier)
-    say(f"[C02] MC done {v.timer.s()}s: {v.cov['states']} states, {len(plan)} (kind, field class) verdicts")
-
+    scratch()
+    mc_handle = mc_start(tier)
     jobs = [(c, comps_by_id[c["comp"]], tam.get(c["id"])) for c in cases]
     results = pmap(run_case, jobs, chunksize=4)
     v.count(len(results))
@@ -542,12 +606,15 @@ def run(tier):
     if len(bad) > len(results) // 20:
         raise Machinery(f"{len(bad)} of {len(results)} configurations were refused by the builder, e.g. {bad[0]['exc']} for {cases_by_id[bad[0]['id']]}")
 
+    plan = mc_finish(v, mc_handle)
+    say(f"[C02] MC done {v.timer.s()}s: {v.cov['states']} states, {len(plan)} (kind, field class) verdicts")
+
     if tier == "thorough":  # every bit of the smallest accepted image per kind (<= 4 KiB)
         best = {}
         for res in results:
             if res["outcome"] == "exported" and res["n"] <= 4096 and res["trace"]["ev"][-1]["ev"] == "Accept":
-                kind = cases_by_id[res["id"]]["kind"]
-                feat = (kind, bool(cases_by_id[res["id"]].get("ks")))
+                c0 = cases_by_id[res["id"]]
+                feat = (c0["kind"], True) if c0.get("ks") else (c0["comp"], c0.get("tz") == "custom")
                 if feat not in best or res["n"] < best[feat]["n"]:
                     best[feat] = res
         jobs2 = []
@@ -564,7 +631,8 @@ def run(tier):
                 and any(e["ev"] in ("VerifySigV1", "VerifySigV21") for e in res["trace"]["ev"]))
     v.extra["canary"] = canary(good)
 
-    n_acc, tam_stats, by_id = decide(v, cases_by_id, comps_by_id, results, plan, tier)
+    n_acc, tam_stats, mismatch = decide(v, cases_by_id, comps_by_id, results, plan, tier)
+    v.extra["tamper_mismatches"] = mismatch[:20]
     n_tam = sum(s["Rejected"] + s["Accepted"] for s in tam_stats.values())
     v.extra["tamper_rejected"] = sum(s["Rejected"] for s in tam_stats.values())
     v.extra["tamper_accepted_dont_care"] = sum(s["Accepted"] for s in tam_stats.values())
@@ -588,7 +656,8 @@ def run(tier):
         "decided by TLC; non-trivial = the trace reaches Accept; distinct by (composition, key class, feature class, length mod 4, TrustZone mode)"
     )
     v.cov["checker_cmd"] = "TLC MbiRomMC (lemmas + tamper plan) ; TLC MbiRomTrace (decides every executor trace)"
-    v.cov["trusted_base"] = "hashlib, hmac, own CRC-32/MPEG-2, cryptography: RSA PKCS1v15 / ECDSA verify, AES-ECB, AES-CTR, X.509 DER parser"
+    v.cov["trusted_base"] = ["hashlib", "hmac", "own CRC-32/MPEG-2 (table from the polynomial)", "cryptography: RSA PKCS1v15 verify, ECDSA verify, AES-ECB, AES-CTR, X.509 DER parser",
+                             "TLC + MbiRom.tla clauses"]
     v.assumptions += [
         "the ROM model per family (image type, certificate block version, HMAC / key store, manifest kind, TrustZone block size) is read from the device database",
         "the fuse value (RKTH) the ROM compares with is the one the tool reports (MasterBootImage.rkth); the hash over the embedded table / key is recomputed independently",
@@ -599,7 +668,10 @@ def run(tier):
         "ISK curves stronger than the root curve and manifest digests with another hash than the signature's are not generated (the tool itself says such images do not boot)",
         "v1 chains with mixed key sizes: one representative (2048-bit root, 4096-bit signing certificate)",
     ]
-    return v.finish()
+    rc = v.finish()
+    if mismatch and rc == 0:  # the measurement of the verifier itself failed: not a verdict about SPSDK
+        raise Machinery(f"{len(mismatch)} tamper runs did not end as the model predicted, e.g. {mismatch[0]}")
+    return rc
 
 
 def all_bits(jobs):
